@@ -281,7 +281,7 @@ fn count_defs(p: &Project) -> usize {
 /// Runs the whole pipeline on one project inside the worker process.
 pub fn run_pipeline(p: &Project) -> Value {
     let mut stages: Vec<&str> = vec![];
-    let bound = 60 + 4 * count_defs(p);
+    let bound = 400 + 4 * count_defs(p);
     macro_rules! stage {
         ($name:expr, $body:expr) => {{
             stages.push($name);
@@ -442,7 +442,7 @@ pub fn prop_project(p: &Project, c: &Case, log: &mut CaseLog) -> Verdict {
                 return Verdict::fail(sig, format!("{}\nstage {}: panic at {}:{}: {}", text(), pn["stage"], pn["file"], pn["line"], pn["msg"]));
             }
             if let Some(d) = v.get("diverged") {
-                return Verdict::fail(format!("pass-loop-never-terminates|shape={:?}", c.shape), format!("{}\nproved: the pass state digest repeated at pass {} in {}", text(), d["at_pass"], d["stage"]));
+                return Verdict::fail(format!("pass-loop-never-terminates|shape={:?}", c.shape), format!("{}\nthe pass state digest repeated (first at pass {}) and the loop was still running at the pass bound in {}", text(), d["at_pass"], d["stage"]));
             }
             if v.get("inconclusive").is_some() {
                 log.label("inconclusive");
